@@ -25,6 +25,7 @@ type decEngine struct {
 	u     *Unit
 	cur   []*FieldSchema
 	calls []decCall
+	entry *State // state at the start of the current case
 }
 
 func (d *decEngine) buf(st *State) (SliceV, bool) {
@@ -141,6 +142,19 @@ func (d *decEngine) loopSpec(c *Ctx, ord int, loop ast.Stmt) *LoopSpec {
 	// packed element loop of a repeated scalar: per-iteration functional obligation
 	if len(d.cur) == 1 && d.cur[0].Rep && !d.cur[0].IsMap {
 		f := d.cur[0]
+		ls.EntryObl = func(c *Ctx, pre *State) {
+			if d.entry == nil {
+				return
+			}
+			l0, okA := c.loadField(d.entry, d.x, f.GoName).(ListV)
+			l1, okB := c.loadField(pre, d.x, f.GoName).(ListV)
+			if !okA || !okB {
+				return
+			}
+			c.addObl(Obl{Name: fmt.Sprintf("%s/%s/packed-run[elements decoded earlier are kept]", d.u.Name, f.GoName), Kind: "decode", OpaqueSpec: true, Guard: pre.guard,
+				Goal: and("(= "+l1.Len+" "+l0.Len+")", or("(= "+l0.Len+" "+c.ilit(0)+")", "(= "+l1.Elems+" "+l0.Elems+")")), Pos: c.pos(fs.Pos()),
+				Text: "when the element loop of a packed run starts the list still holds exactly the elements it held at the start of the record (pre-allocation must not drop them)"})
+		}
 		ls.BodyObl = func(c *Ctx, before, after *State, _ string) {
 			i0v, ok0 := envByName(before, "iNdEx", fs.Pos())
 			i1v, ok1 := envByName(after, "iNdEx", fs.Pos())
@@ -179,6 +193,7 @@ func (d *decEngine) scalarSpec(st *State, f *FieldSchema, s string) (val, next s
 
 func (d *decEngine) onCase(c *Ctx, cc *ast.CaseClause, st *State) {
 	d.cur = nil
+	d.entry = st.clone()
 	for _, ex := range cc.List {
 		if v, ok := c.constVal(ex); ok {
 			if sc, ok := v.(Scalar); ok {
